@@ -1,22 +1,36 @@
 #!/bin/bash
-# tools/seed_matrix.sh [tier] — run every seeded change whose property has a check; write seeded/RESULTS.md
+# tools/seed_matrix.sh [tier] [jobs] — run every seeded change against the check of its property
+# (and, if listed in meta.json "also_detected_by", against those checks too); write seeded/RESULTS.md
 cd "$(dirname "$0")/.."
-tier=${1:-quick}
-out=seeded/RESULTS.md
-echo "# Seeded changes vs. checks ($tier tier, $(date -u +%FT%TZ), /repo $(git -C /repo rev-parse --short HEAD), /verif $(git rev-parse --short HEAD))" > $out.tmp
-echo >> $out.tmp
-echo "| seed | property | result | how it was reported |" >> $out.tmp
-echo "|---|---|---|---|" >> $out.tmp
-for d in seeded/*/; do
-  name=$(basename $d); [ -f $d/meta.json ] || continue
+tier=${1:-quick}; jobs=${2:-3}
+out=${SEED_RESULTS:-seeded/RESULTS.md}
+rows=.build/seedrows; rm -rf $rows; mkdir -p $rows
+one() {
+  name=$1; tier=$2; d=seeded/$name
   prop=$(python3 -c "import json;print(json.load(open('$d/meta.json'))['property'])")
-  obs=$(python3 -c "import json;print(json.load(open('$d/meta.json')).get('obsolete','')[:160])")
-  if [ -n "$obs" ]; then echo "| $name | $prop | OBSOLETE (no longer breaks the property on HEAD) | $obs |" >> $out.tmp; echo "OBSOLETE $name"; continue; fi
-  if [ ! -f checks/$prop.json ]; then echo "| $name | $prop | no check yet | |" >> $out.tmp; continue; fi
-  r=$(tools/run_seeded.sh $name $tier 2>&1)
-  line=$(echo "$r" | grep -E "DETECTED|MISSED|PATCH" | head -1)
-  how=$(echo "$r" | grep '^\[check\]' | head -2 | tr '\n' ' ' | cut -c1-300 | sed 's/|/\\|/g')
-  echo "| $name | $prop | ${line%% *} $(echo $line | grep -o 'no-failing-input-found') | $how |" >> $out.tmp
-  echo "$line"
-done
-mv $out.tmp $out
+  obs=$(python3 -c "import json;print(json.load(open('$d/meta.json')).get('obsolete','')[:200])")
+  also=$(python3 -c "import json;print(' '.join(json.load(open('$d/meta.json')).get('also_detected_by',[])))")
+  if [ -n "$obs" ]; then echo "| $name | $prop | OBSOLETE (no longer breaks the property on HEAD) | $obs |" > .build/seedrows/$name; echo "OBSOLETE $name"; return; fi
+  if [ ! -f checks/$prop.json ]; then echo "| $name | $prop | no check | |" > .build/seedrows/$name; return; fi
+  r=$(tools/run_seeded.sh $name $tier $prop $also 2>&1)
+  res=""
+  for id in $prop $also; do
+    line=$(echo "$r" | grep -E "(DETECTED|MISSED|PATCH-DOES-NOT-APPLY) $name( by $id)?" | grep -E "by $id|PATCH" | head -1)
+    st=${line%% *}; nf=$(echo "$line" | grep -o 'no-failing-input-found')
+    res="$res $id:${st:-?}${nf:+(fact/correspondence only)}"
+  done
+  how=$(echo "$r" | grep '^\[check\] property fails' | head -1 | cut -c1-260 | sed 's/|/\\|/g')
+  [ -z "$how" ] && how=$(echo "$r" | grep '^\[check\] broken' | head -1 | cut -c1-200 | sed 's/|/\\|/g')
+  echo "| $name | $prop |$res | $how |" > .build/seedrows/$name
+  echo "$name:$res"
+}
+export -f one
+ls seeded | grep -v RESULTS | grep -E "${SEED_FILTER:-.}" | xargs -P $jobs -I{} bash -c "one {} $tier"
+{
+echo "# Seeded changes vs. checks ($tier tier, $(date -u +%FT%TZ), /repo $(git -C /repo rev-parse --short HEAD), /verif $(git rev-parse --short HEAD))"
+echo
+echo "| seed | property | result per check (property's own check first) | how it was reported |"
+echo "|---|---|---|---|"
+for f in $(ls $rows | sort); do cat $rows/$f; done
+} > $out
+git checkout -- evidence 2>/dev/null || true
